@@ -50,7 +50,11 @@ type Case struct {
 	Body     string `json:"body,omitempty"` // "absent" | "empty"
 }
 
-func TestMain(m *testing.M) { h.Main(m, "C06") }
+func TestMain(m *testing.M) {
+	// a vendor media type with upper-case letters in its name, decoded as JSON
+	openapi3filter.RegisterBodyDecoder("application/vnd.myCo.orderV2+json", openapi3filter.JSONBodyDecoder)
+	h.Main(m, "C06")
+}
 
 var prop = &h.Prop[Case]{ID: "C06", Gen: gen, Check: check, Enum: enumerate}
 
@@ -540,8 +544,8 @@ func normalise(v any) any {
 
 // ---------------------------------------------------------------------------------------
 
-var declKeys = []string{"application/json", "application/json; charset=utf-8", "application/problem+json", "application/*", "*/*", "text/plain", "text/*"}
-var headers = []string{"application/json", "application/json; charset=utf-8", "application/json;charset=utf-8", "application/problem+json", "application/hal+json", "text/plain", "text/plain; charset=utf-8", "", "application/xml", "image/png", "json", "application/"}
+var declKeys = []string{"application/json", "application/json; charset=utf-8", "application/problem+json", "application/*", "*/*", "text/plain", "text/*", "application/vnd.myCo.orderV2+json"}
+var headers = []string{"application/json", "application/json; charset=utf-8", "application/json;charset=utf-8", "application/problem+json", "application/hal+json", "text/plain", "text/plain; charset=utf-8", "", "application/xml", "image/png", "json", "application/", "application/vnd.myCo.orderV2+json", "application/vnd.myCo.orderV2+json; charset=utf-8"}
 
 func enumerate(shard, nshards int, yield func(Case)) {
 	idx := 0
